@@ -72,29 +72,38 @@ Theorem double_buffer_bounds :
     group_size (t_ranges t) d <= db_get (t_db t) (Z.of_nat i).
 Proof. exact double_buffer_bounds_lemma. Qed.
 
-(* ... and only of that parity: a consumer that puts every slice into one buffer of double_buffer_sizes[0] bytes (what
-   scheduler.propose_weight_buffering does for a single, non-double buffer) is not covered -- slice 1 is larger here *)
+(* ... and only of that parity: double_buffer_sizes[0] alone does not bound slice 1 here.  This is why a SINGLE weight buffer
+   must not be sized with it (scheduler.propose_weight_buffering did so before repo commit 375f89a) *)
 Theorem single_buffer_refuted :
   exists t, encode_layout uneven_enc 1 48 16 true (repeat 0 48) (repeat (1, 0) 48) [0; 16; 32; 48] = Some t /\
             strictly_increasing [0; 16; 32; 48] /\
-            db_get (t_db t) 0 < group_size (t_ranges t) 16 /\ group_size (t_ranges t) 16 <= db_get (t_db t) 1.
+            db_get (t_db t) 0 < group_size (t_ranges t) 16 /\ group_size (t_ranges t) 16 <= db_get (t_db t) 1 /\
+            group_size (t_ranges t) 16 <= single_buffer_size (zlen (t_buffer t)) (t_db t).
 Proof. exact single_buffer_refuted_lemma. Qed.
 
+(* the size the scheduler gives a single weight buffer now, min(len(buffer), max(double_buffer_sizes)), bounds EVERY slice *)
+Theorem single_buffer_bounds :
+  forall enc nc n bd do_w biases qs offs t i d len,
+    encode_layout enc nc n bd do_w biases qs offs = Some t -> strictly_increasing offs ->
+    nth_error (slice_pairs offs) i = Some (d, len) ->
+    group_size (t_ranges t) d <= single_buffer_size (zlen (t_buffer t)) (t_db t).
+Proof. exact single_buffer_bounds_lemma. Qed.
+
 (* create_weights: the address ranges of slice i are its weight / scale sections, aligned, inside the tensor or (buffered)
-   inside a buffer of double_buffer_sizes[i mod 2] bytes *)
+   inside any buffer of at least the slice's bytes: double_buffer_sizes[i mod 2] (double_buffer_bounds) for a double buffer,
+   single_buffer_size (single_buffer_bounds) for a single one *)
 Theorem npu_ranges_inside_tensor :
   forall enc nc n bd do_w biases qs offs t i d len,
     encode_layout enc nc n bd do_w biases qs offs = Some t -> do_w = true -> strictly_increasing offs ->
     nth_error (slice_pairs offs) i = Some (d, len) -> 0 < nc ->
     exists R1 Rd R2,
       t_ranges t = R1 ++ Rd ++ R2 /\ (forall r, In r Rd -> r_depth r = d) /\ (forall r, In r (R1 ++ R2) -> r_depth r <> d) /\
-      forall (buffered : bool) (w_addr : Z),
+      forall (buffered : bool) (w_addr bsz : Z), group_size (t_ranges t) d <= bsz ->
         let base := if buffered then w_addr - total_ext R1 else w_addr in
         let ws := map (fun r => (base + r_offset r + r_weight_offset r, r_weight_bytes r)) Rd in
         let bs := map (fun r => (base + r_offset r, r_weight_offset r)) Rd in
         create_weights nc (t_ranges t) d buffered w_addr None = Some (ws, bs) /\
-        Forall (in_window w_addr (w_addr + (if buffered then db_get (t_db t) (Z.of_nat i) else zlen (t_buffer t))) w_addr)
-               (ws ++ bs).
+        Forall (in_window w_addr (w_addr + (if buffered then bsz else zlen (t_buffer t))) w_addr) (ws ++ bs).
 Proof. exact npu_ranges_inside_tensor_lemma. Qed.
 
 (* the same with a separate scale tensor (weights reused from the cache, scales encoded alone) *)
@@ -139,31 +148,49 @@ Theorem encoding_exists :
       exists t, encode_layout enc nc n bd do_w biases qs offs = Some t.
 Proof. exact encode_layout_total. Qed.
 
-(* the cache: if equal keys imply equal inputs, every response (miss, hit, hit with re-encoded scales) holds for every
-   (core, slice) key the same scale bytes and weight bytes as a fresh encoding of that request *)
+(* the cache, for the key function of the code that exists (wkey_of: block type, clipped block depth, slices, dilation,
+   weight value id, IFM bit depth, transpose flip): if equal keys imply equal inputs, every response (miss, hit, hit with
+   re-encoded scales) holds for every (core, slice) key the same scale bytes and weight bytes as a fresh encoding *)
 Theorem cache_reuse_sound :
   forall codec, (forall w c d l b, zlen (codec w c d l b) mod 16 = 0) ->
   forall h resps,
-    key_determines_inputs h -> Forall wf_request h -> run codec [] h = Some resps ->
+    key_determines_inputs wkey_of h -> Forall wf_request h -> run codec wkey_of [] h = Some resps ->
     Forall2 (fun q r => exists tf, fresh codec q = Some tf /\ effective r = effective tf) h resps.
-Proof. exact cache_reuse_sound_lemma. Qed.
+Proof. exact (fun codec H => cache_reuse_sound_lemma codec H wkey_of). Qed.
 
-(* inputs of the encoding that neither key contains: IFM bit depth, accelerator (micro-block depths), core count,
-   transpose-convolution flip, weight content behind a value id, unclipped block depth; and (scale key) the quantised
-   scales: each request below has the keys of q0 and differs from it *)
+(* inputs of the encoding that the key still does not contain: accelerator (micro-block depths), core count, weight
+   content behind a value id, unclipped block depth; and (scale key) the quantised scales: each request below has the keys
+   of q0 and differs from it.  (One architecture per compilation and caches cleared per compilation: no two requests of a
+   compilation differ in accelerator or cores; value ids identify contents; the codec ignores the unclipped block depth.) *)
 Theorem key_omits :
   Forall (fun q => wkey_of q = wkey_of q0 /\ skey_of q = skey_of q0 /\ q <> q0)
-         [q_bits; q_accel; q_cores; q_flip; q_content; q_blockdepth; q_qscales'].
+         [q_accel; q_cores; q_content; q_blockdepth; q_qscales'].
 Proof. exact key_omits_lemma. Qed.
 
-(* and then reuse is not sound: with a codec that depends on the IFM bit depth (as mlw_codec does), the history
-   [q0; q_bits] answers the second request with the first request's bytes *)
+(* the IFM bit depth and the transpose-convolution flip are in the key (since 845322f); the old key omitted them *)
+Theorem key_contains :
+  wkey_of q_bits <> wkey_of q0 /\ wkey_of q_flip <> wkey_of q0 /\
+  wkey_of_old q_bits = wkey_of_old q0 /\ wkey_of_old q_flip = wkey_of_old q0.
+Proof. exact key_contains_lemma. Qed.
+
+(* with an omitted input reuse is not sound in the model: a codec that depends on the accelerator (as mlw_codec does through
+   the micro-block depths) and the history [q0; q_accel].  On the implementation this needs two architectures in one process:
+   replayed on the real function only, not reachable through the compiler *)
 Theorem cache_reuse_refuted :
   exists (codec : wparams -> Z -> Z -> Z -> Z -> list Z) (h : list request) resps,
     (forall w c d l b, zlen (codec w c d l b) mod 16 = 0) /\ Forall wf_request h /\
-    run codec [] h = Some resps /\
+    run codec wkey_of [] h = Some resps /\
     ~ Forall2 (fun q r => exists tf, fresh codec q = Some tf /\ effective r = effective tf) h resps.
 Proof. exact cache_reuse_refuted_lemma. Qed.
+
+(* the refutation that motivated 845322f -- about the OLD key function, kept as a regression statement: with a codec that
+   depends on the IFM bit depth the history [q0; q_bits] answered the second request with the first request's bytes *)
+Theorem cache_reuse_old_key_refuted :
+  exists (codec : wparams -> Z -> Z -> Z -> Z -> list Z) (h : list request) resps,
+    (forall w c d l b, zlen (codec w c d l b) mod 16 = 0) /\ Forall wf_request h /\
+    run codec wkey_of_old [] h = Some resps /\
+    ~ Forall2 (fun q r => exists tf, fresh codec q = Some tf /\ effective r = effective tf) h resps.
+Proof. exact cache_reuse_old_key_refuted_lemma. Qed.
 
 Print Assumptions gen_encode_bias_is_model.
 Print Assumptions encode_bias_roundtrip.
@@ -172,10 +199,13 @@ Print Assumptions scales_one_record_per_channel.
 Print Assumptions scales_odd_slice_refuted.
 Print Assumptions double_buffer_bounds.
 Print Assumptions single_buffer_refuted.
+Print Assumptions single_buffer_bounds.
 Print Assumptions npu_ranges_inside_tensor.
 Print Assumptions npu_scale_ranges_inside_scale_tensor.
 Print Assumptions dma_length_is_slice.
 Print Assumptions encoding_exists.
 Print Assumptions cache_reuse_sound.
 Print Assumptions key_omits.
+Print Assumptions key_contains.
 Print Assumptions cache_reuse_refuted.
+Print Assumptions cache_reuse_old_key_refuted.
